@@ -20,6 +20,8 @@ claimed={
         'Event rounds must equal the timer model exactly (not earlier, not later, once); the survivor final timeline must be the real inputs up to the cut-off and (default, Disconnected) after it, spectators included.'),
  'C14':(M,'6 C14','word sweeps through the real encode/decode: all (reference, sequence) pairs over a small alphabet, a run-length stress family, all byte strings up to 2/3 bytes (+ reduced-alphabet 4-5 bytes) in child processes under a counting allocator',
         'Round trip compared with the reference model (the list itself); totality = no panic, no abort, peak allocation under 4x the largest legitimate expansion, for every enumerated byte string.'),
+ 'C12':(M,'6 C12','stateful exploration (visited set) of every fate of every handshake packet, k<=2/3 fault enumeration at three poll cadences, forged replies at every round, silence-length grids, poll-only cadence grids, undrained queues; oracles: per-address event grammar automaton, round trips matched by the simulated network, timer reference model',
+        'The event stream of every explored execution must be accepted by the grammar automaton; Running must coincide, call by call, with 5 network-matched round trips per remote; interruption/resume/disconnect rounds must equal the timer model; the undrained queue must stay <= 100.'),
  'C13':(M,'6 C13','grid enumeration of all builder configurations x input programs, and every (frame, simulation index) placement of a nondeterministic step; reference model of the expected verdict',
         'Every configuration of the grid is either rejected by the builder (and must be invalid) or run 60 frames; every placement of one perturbed simulation must be reported within check_distance+2 calls naming frame g+1. One known finding (first simulation never checksummed).'),
 }
